@@ -167,6 +167,7 @@ def run(ctx):
                 'incl. handlers), every entry point compared with lookup()/subscriptions() for all objects x provided x '
                 'names under a random warm-up order of the shared caches; bad names on every path; distinct = worlds')
     ctx.bounds = 'interfaces<=4, registrations<=6, subscriptions<=4'
+    regcommon.first_after_mutation(ctx, 'C08')
     trials = 250 if ctx.tier == 'quick' else 4000
     for t in range(trials):
         if ctx.out_of_time() or ctx.too_many():
